@@ -251,6 +251,34 @@ func runHistory(limit int64, mode string, ops []op) (obs []string, evs [][][2]in
 	return
 }
 
+// guard is tr.Guard with a second look: when the watchdog fires, the call gets three more periods before
+// it is called a hang.  On a loaded machine the whole process can be stalled for seconds; when it wakes
+// up the timer has fired and the call finishes a microsecond later - one select between the two would
+// pick at random (seen once in round 3: "hang" on a 42-call history while 30 other checks were running).
+func guard(d time.Duration, f func()) string {
+	done := make(chan string, 1)
+	go func() {
+		defer func() {
+			if r := recover(); r != nil {
+				done <- "panic:" + tr.PanicKind(r)
+			}
+		}()
+		f()
+		done <- ""
+	}()
+	select {
+	case s := <-done:
+		return s
+	case <-time.After(d):
+	}
+	select {
+	case s := <-done:
+		return s
+	case <-time.After(3 * d):
+		return "hang"
+	}
+}
+
 // The generator runs every case once for its labels; exec reuses that run's output instead of running
 // the case a second time (replays and corpus lines come through exec alone).
 var memoIn, memoOut string
@@ -272,7 +300,7 @@ func exec(in string) string {
 		ops = parseOps(f[3])
 	}
 	var out string
-	if g := tr.Guard(5*time.Second, func() {
+	if g := guard(5*time.Second, func() {
 		obs, _, _ := runHistory(limit, f[2], ops)
 		out = strings.Join(obs, ";")
 	}); g != "" {
@@ -413,7 +441,7 @@ func emit(g *tr.G, limit int64, mode string, ops []op) {
 		var obs []string
 		var evs [][][2]int
 		var flags []stepFlags
-		if hung := tr.Guard(5*time.Second, func() { obs, evs, flags = runHistory(limit, mode, ops) }); hung != "" {
+		if hung := guard(5*time.Second, func() { obs, evs, flags = runHistory(limit, mode, ops) }); hung != "" {
 			memoIn, memoOut = in, hung
 			evs, flags = nil, nil
 		} else {
